@@ -7,6 +7,8 @@ COMMON_ASSUME = [
 ]
 
 TIERS = {
+    "C13": {"quick": {"runs": 240, "budget_s": 80, "run_timeout_s": 300},
+            "thorough": {"runs": 4000, "budget_s": 900, "run_timeout_s": 600}},
     "C14": {"quick": {"runs": 400, "budget_s": 70, "run_timeout_s": 300},
             "thorough": {"runs": 6000, "budget_s": 900, "run_timeout_s": 600}},
     "C16": {"quick": {"runs": 300, "budget_s": 80, "run_timeout_s": 300},
@@ -45,6 +47,20 @@ TM_RULE = ("case = (generated program, argument, seeded history of trace transit
            "or a fault fired")
 
 META = {
+    "C13": {"LEVEL": "exploration",
+            "RULE": "case = (one of the 24 exported distributions or 2 user wrappers, seeded parameters across the domain, values across "
+                    "the support incl. edges, sampler configuration in {sample_shape under seed, jit, modular_vmap lanes, vmap over keys}, "
+                    "key); distinct = distinct (distribution, configuration, parameters); every case is non-trivial",
+            "COMPONENTS": {"real": ["genjax.distributions (24 exports)", "genjax.core.tfp_distribution / distribution", "genjax.pjax wrap_sampler / "
+                                    "wrap_logpdf / Seed / ModularVmap batch rule", "TFP samplers and log_prob"],
+                           "stub": ["sim/jaxcompat.py"], "regimes": "REAL"},
+            "ASSUMPTIONS": COMMON_ASSUME + ["scipy.stats is the reference for densities / CDFs of the documented parameterisations",
+                                            "logpdf and normalisation clauses are op-level comparisons (pure functions); only the sampler clause is simulated",
+                                            "two-stage sequential test: p<1e-6 twice, second batch 8x larger with a fresh key"],
+            "REQUIRED_PROBES": {"quick": ["logpdf_points", "normalisation", "sampler_tests", "mode_sample_shape", "mode_mvmap_lanes", "mode_vmap_keys"],
+                                "thorough": ["logpdf_points", "normalisation", "sampler_tests"] + ["d_" + n for n in (
+                                    "bernoulli flip beta categorical geometric normal uniform exponential poisson multivariate_normal dirichlet binomial gamma "
+                                    "log_normal student_t laplace half_normal inverse_gamma weibull cauchy chi2 multinomial negative_binomial zipf user_logistic user_gumbel").split()]}},
     "C14": {"LEVEL": "exploration",
             "RULE": "case = (placement: chain of <= 3 wrappers from {jit, scan, while_loop, fori_loop, cond, switch, grad, vmap, "
                     "vmap with unbatched site, checkpoint, custom_jvp} around a site written as dist.sample / dist(...) / @gen simulate; "
@@ -179,6 +195,8 @@ META = {
 
 DST = "deterministic simulation with fault injection"
 CLAIMS = {
+    "C13": dict(text="sampler clause simulated over keys and vectorisation configurations (seed, jit, modular_vmap, vmap of keys) with shape/dtype exact and two-stage goodness-of-fit tests against scipy; logpdf and normalisation compared op by op against scipy (pure clauses, labelled as such)",
+                ref="DESIGN.md 4 C13", note="scipy.stats reference; statistical clauses have false-alarm probability ~1e-12 per hypothesis", technique=DST + " (REAL randomness seam over key batches and configurations; op-level reference comparison for the pure clauses)"),
     "C14": dict(text="seeded search over placements of a sampling site in JAX control flow/transformations and over histories of flag flips, cache flushes, logical-clock jumps and failing neighbours; unseeded compile attempts must raise, seeded results must follow the key and not the clock",
                 ref="DESIGN.md 4 C14", note="placements bounded to depth 3; fresh function objects per probe", technique=DST + " (logical-clock jumps + cache loss between repeated seeded calls expose hidden randomness)"),
     "C16": dict(text="through the randomness seam: the leaves redrawn by regenerate and moved by mala/hmc (SCRIPTED accept) are exactly the leaves filter selects and the Boolean meaning of generated selection expressions; chained match / filter-merge partition as op-level comparisons",
